@@ -155,6 +155,9 @@ func (h *Hub) RunOptionalStats(closed chan struct{}, withStats bool) {
 						close(subclient.Stopped)
 					}
 				}
+				// the subclients are gone: forget them, so that a later
+				// unregister or delete does not close them a second time
+				h.SubClients = make(map[*hub.Client]map[*SubClient]bool)
 
 				h.Rules = make(map[string][]string)
 
@@ -167,6 +170,8 @@ func (h *Hub) RunOptionalStats(closed chan struct{}, withStats bool) {
 							h.Hub.Unregister <- subClient.Client
 							close(subClient.Stopped)
 						}
+						// forget the stopped subclients (see deleteAll above)
+						delete(h.SubClients, client)
 					}
 				}
 
